@@ -96,6 +96,7 @@ func wantsExitYield(rel string, fd *ast.FuncDecl) bool {
 }
 
 const hookPath = "github.com/emmansun/gmsm/verifsync"
+const atomicHookPath = "github.com/emmansun/gmsm/verifatomic"
 
 func main() {
 	repo, gen := os.Args[1], os.Args[2]
@@ -168,6 +169,17 @@ func main() {
 			var edits []edit
 			redirect := false
 			for _, is := range f.Imports {
+				if is.Path.Value == `"sync/atomic"` {
+					// every atomic operation becomes a scheduling point (the operation itself stays the real one)
+					redirect = true
+					off := fset.Position(is.Path.Pos()).Offset
+					txt := `"` + atomicHookPath + `"`
+					if is.Name == nil {
+						txt = "atomic " + txt
+					}
+					edits = append(edits, edit{off, len(is.Path.Value), txt})
+					nSync++
+				}
 				if is.Path.Value == `"sync"` {
 					redirect = true
 					off := fset.Position(is.Path.Pos()).Offset
